@@ -6,6 +6,7 @@
 package driver
 
 import (
+	"bytes"
 	"context"
 	"encoding/base64"
 	"encoding/json"
@@ -84,6 +85,7 @@ type Script struct {
 	Seed     int64           `json:"seed"`     // seed for random response values when Fill is absent and Random is set
 	Random   bool            `json:"random"`   // fill the response with seeded random values
 	ReadBody bool            `json:"readBody"` // read a raw request body and record it
+	Default  bool            `json:"default"`  // return the operation's default response (the implementer with a Code field)
 }
 
 type caseCtx struct {
@@ -384,11 +386,22 @@ func buildResponse(reg Registry, rec *Recorder, op OpInfo, cc *caseCtx) reflect.
 			panic("driver: no response type implements " + op.RespType.String())
 		}
 		name = impl[0]
+		if cc.script.Random {
+			name = impl[int(uint64(cc.script.Seed)%uint64(len(impl)))]
+		}
+	}
+	if cc.script.Default {
+		for _, n := range impl {
+			if f, ok := reg.Types[n].FieldByName("Code"); ok && f.Type.Kind() == reflect.Int {
+				name = n
+			}
+		}
 	}
 	t, ok := reg.Types[name]
 	if !ok {
 		panic("driver: unknown response type " + name)
 	}
+	name = t.Name() // aliases: report the declared name of the type itself
 	v := reflect.New(t).Elem()
 	code := cc.script.Code
 	if code == 0 {
@@ -404,19 +417,38 @@ func buildResponse(reg Registry, rec *Recorder, op OpInfo, cc *caseCtx) reflect.
 			panic("driver: cannot build response: " + err.Error())
 		}
 	case cc.script.Random:
-		RandomFill(v, newRng(cc.script.Seed), 0)
-	}
-	if f := v.FieldByName("Code"); f.IsValid() && f.Kind() == reflect.Int && f.Int() == 0 {
-		f.SetInt(int64(code))
-	}
-	if f := v.FieldByName("Body"); f.IsValid() && f.Kind() == reflect.Interface && f.IsNil() {
-		// io.Reader / io.ReadCloser body: give it an empty reader so Write does not dereference nil
-		var rc io.ReadCloser = io.NopCloser(strings.NewReader(""))
-		if reflect.TypeOf(rc).AssignableTo(f.Type()) {
-			f.Set(reflect.ValueOf(rc))
+		r := newRng(cc.script.Seed)
+		RandomFill(v, r, 0)
+		if h := v.FieldByName("Headers"); h.IsValid() {
+			fixDomain(h, "headers", r) // header values must survive the wire: visible ASCII, arrays non-empty
 		}
 	}
-	rec.Emit(Event{"ev": "Respond", "case": cc.id, "type": name, "value": Project(v)})
+	if f := v.FieldByName("Code"); f.IsValid() && f.Kind() == reflect.Int && (f.Int() == 0 || cc.script.Random) {
+		f.SetInt(int64(code))
+	}
+	var rawBody []byte
+	hasRaw := false
+	if f := v.FieldByName("Body"); f.IsValid() && f.Kind() == reflect.Interface {
+		// io.Reader / io.ReadCloser body: a known byte string, so that it can be compared after it was consumed
+		rawBody = []byte(fmt.Sprintf("raw-%d-\x00\xff\n", cc.script.Seed))
+		if !cc.script.Random {
+			rawBody = []byte{}
+		}
+		var rc io.ReadCloser = io.NopCloser(bytes.NewReader(rawBody))
+		if reflect.TypeOf(rc).AssignableTo(f.Type()) {
+			f.Set(reflect.ValueOf(rc))
+			hasRaw = true
+		}
+	}
+	pv := Project(v)
+	if hasRaw {
+		for i := range pv.F {
+			if pv.F[i].N == "body" {
+				pv.F[i].V = AVal{T: "leaf", S: "r:" + b64(rawBody)}
+			}
+		}
+	}
+	rec.Emit(Event{"ev": "Respond", "case": cc.id, "type": name, "value": pv})
 	out := reflect.New(op.RespType).Elem()
 	out.Set(v)
 	return out
